@@ -244,6 +244,15 @@ theorem plan_ok (target : List UInt8) (sig : Signature D) (maxDataOpSize : Nat) 
       · exact h1 op hop
       · exact flushOps_ok _ _ _ h2 op hop
 
+/-- `DeltifyBytes` (a transmitter that never fails) returns exactly the plan. -/
+theorem deltifyBytes_eq_plan (target : List UInt8) (sig : Signature D) (maxDataOpSize : Nat) :
+    deltifyBytes H target sig maxDataOpSize = plan H target sig maxDataOpSize := by
+  unfold deltifyBytes
+  have hnf := scripted_no_failure (fun _ => false) (plan H target sig maxDataOpSize).1 (by intros; rfl)
+  rw [deltify_eq_runOps]
+  simp only [hnf, Bool.false_eq_true, if_false]
+  exact Prod.ext (scripted_log_ok _ _ hnf).2.1 rfl
+
 end
 
 end Mutagen.Proofs.Rsync
